@@ -9,13 +9,15 @@
           m_eigs  (the inner solver object: `Orch.St`),   m_nconv,   m_evecs  (the eigenvector cache, 0 columns after construction)
       constants: `m_mat` (A, m × n), the inner configuration `c` (n = min(m,n), nev = ncomp, ncv clamped to n).
       - `compute(maxit, tol)`   = `m_eigs->init(); m_nconv = m_eigs->compute(LargestAlge, maxit, tol)`  (sorting = default LargestAlge)
-      - `singular_values()`     = `m_eigs->eigenvalues().cwiseSqrt()`
-      - `matrix_U(nu)` / `matrix_V(nv)`: fill the cache from `m_eigs->eigenvectors()` ONLY IF IT HAS NO COLUMN (`m_evecs.cols() < 1`);
+        and FIRST `m_evecs.resize(0, 0)` (fix of finding F4: before it, nothing ever invalidated the cache)
+      - `singular_values()`     = `m_eigs->eigenvalues().cwiseMax(0).cwiseSqrt()` (fix of finding F5: a zero eigenvalue that rounding made
+        slightly negative used to give NaN)
+      - `matrix_U(nu)` / `matrix_V(nv)`: fill the cache from `m_eigs->eigenvectors()` if it has no column (`m_evecs.cols() < 1`);
         `k = min(nu, m_nconv)`; the side that the eigenproblem was solved for (V when m > n: AᵀA; U when m ≤ n: AAᵀ) is
-        `m_evecs.leftCols(k)`; the other side is `A · (v_j / sqrt(λ_j))` resp. `Aᵀ · (u_j / sqrt(λ_j))` with the CURRENT eigenvalues.
-        `leftCols(k)` / `head(k)` with `k` larger than what is there is an Eigen assertion (undefined behaviour under NDEBUG):
-        modelled as the outcome `.error`.
-  `compute` never touches `m_evecs`: nothing invalidates the cache (finding F4).
+        `m_evecs.leftCols(k)`; the other side is `A · scaled_evecs(k)` resp. `Aᵀ · scaled_evecs(k)`, column `j` of `scaled_evecs` being
+        `e_j / σ_j` if `σ_j > 0` and the ZERO vector otherwise (σ = `singular_values()`).
+        `leftCols(k)` / `svals[j]` with `k` larger than what is there is an Eigen assertion (undefined behaviour under NDEBUG):
+        modelled as the outcome `.error` (still reachable after a THROWING `compute`, which leaves `m_nconv` as it was).
   Core Lean only (the driver links this file).
 -/
 import SpectraVerif.Model.Orch
@@ -53,8 +55,11 @@ def isTall (A : Mat α) : Bool := decide (A.rows > A.cols)
 /-- the operator the constructor installs -/
 def performOp (A : Mat α) (x : Vec α) : Vec α := if isTall A then (tallPerformOp A x).1 else (widePerformOp A x).1
 
-/-- one column of `(cols.array().rowwise() / evals.head(k).transpose().array().sqrt())`: `v / sqrt(λ)` element by element -/
-def scaleCol (v : Vec α) (lam : α) : Vec α := vdivs v (Sc.sqrt lam)
+/-- one entry of `eigenvalues().cwiseMax(Scalar(0))`: Eigen's `maxi(x, 0) = (x < 0) ? 0 : x` -/
+def clamp0 (x : α) : α := if Sc.lt x zero then zero else x
+
+/-- one column of `scaled_evecs(k)`: `res.col(j) /= svals[j]` (element by element) if `svals[j] > 0`, else `res.col(j).setZero()` -/
+def scaleCol (v : Vec α) (sigma : α) : Vec α := if Sc.lt zero sigma then vdivs v sigma else v.map (fun _ => zero)
 
 end ops
 
@@ -101,18 +106,19 @@ variable (v0 : β)
 /-- the constructor: `m_evecs(0, 0)`; `m_nconv` is not initialised (`junk`) -/
 def construct (fac0 : φ) (junk : Nat) : St φ α ε κ := { eigs := Orch.construct fac0, nconv := junk, evecs := [] }
 
-/-- `compute(maxit, tol)`.  An exception leaves `m_nconv` as it was (the assignment is not reached). -/
+/-- `compute(maxit, tol)`: `m_evecs.resize(0, 0); m_eigs->init(); m_nconv = m_eigs->compute(LargestAlge, maxit, tol)`.
+    The cache is emptied FIRST, so also when `init`/`compute` throw; an exception leaves `m_nconv` as it was. -/
 def compute (maxit : Nat) (tol : τ) (s : St φ α ε κ) : St φ α ε κ × Except Orch.Exn Nat :=
   match Orch.init K c v0 s.eigs with
-  | (e1, some x) => ({ s with eigs := e1 }, .error x)
+  | (e1, some x) => ({ s with eigs := e1, evecs := [] }, .error x)
   | (e1, none) =>
     let r := Orch.compute K c LARGEST_ALGE maxit tol LARGEST_ALGE e1
     match r.out with
-    | .error x => ({ s with eigs := r.st }, .error x)
-    | .ok n => ({ s with eigs := r.st, nconv := n }, .ok n)
+    | .error x => ({ s with eigs := r.st, evecs := [] }, .error x)
+    | .ok n => ({ eigs := r.st, nconv := n, evecs := [] }, .ok n)
 
 /-- `singular_values()` -/
-def singular_values (s : St φ α ε κ) : List α := (Orch.eigenvalues K c s.eigs).map Sc.sqrt
+def singular_values (s : St φ α ε κ) : List α := (Orch.eigenvalues K c s.eigs).map (fun x => Sc.sqrt (clamp0 x))
 
 /-- `if (m_evecs.cols() < 1) m_evecs = m_eigs->eigenvectors();` -/
 def fillCache (s : St φ α ε κ) : St φ α ε κ :=
@@ -122,13 +128,12 @@ def fillCache (s : St φ α ε κ) : St φ α ε κ :=
 def cachedSide (k : Nat) (s : St φ α ε κ) : Cols α :=
   if k > s.evecs.length then .error "leftCols" else .ok (s.evecs.take k)
 
-/-- the computed side: `B * (m_evecs.leftCols(k).array().rowwise() / m_eigs->eigenvalues().head(k).transpose().array().sqrt()).matrix()`
-    with `B = m_mat` (for U) or `B = m_mat.transpose()` (for V) -/
+/-- the computed side: `B * scaled_evecs(k)` with `B = m_mat` (for U) or `B = m_mat.transpose()` (for V) -/
 def computedSide (mul : Vec α → Vec α) (k : Nat) (s : St φ α ε κ) : Cols α :=
-  let ev := Orch.eigenvalues K c s.eigs
+  let sv := singular_values K c s
   if k > s.evecs.length then .error "leftCols"
-  else if k > ev.length then .error "head"
-  else .ok ((List.range k).map (fun j => mul (scaleCol (s.evecs.getD j #[]) (ev.getD j zero))))
+  else if k > sv.length then .error "svals"
+  else .ok ((List.range k).map (fun j => mul (scaleCol (s.evecs.getD j #[]) (sv.getD j zero))))
 
 /-- `matrix_U(nu)` -/
 def matrix_U (nu : Nat) (s : St φ α ε κ) : St φ α ε κ × Cols α :=
